@@ -62,7 +62,10 @@ TFromSyms == IsOp("fromsyms") /\ FromSyms(ev.dst, ev.c, ev.syms) /\ Match(out')
 TNew == IsOp("new") /\ NewSeq(ev.dst, ev.c) /\ Match(out')
 TClone == IsOp("clone") /\ Clone(ev.dst, ev.r) /\ Match(out')
 TToOwned == IsOp("toowned") /\ ToOwned(ev.dst, ev.src) /\ Match(out')
-TFromRaw == IsOp("fromraw") /\ FromRaw(ev.dst, ev.c, ev.n, ev.limbs) /\ Match(out')
+TFromRaw ==
+    /\ IsOp("fromraw")
+    /\ (IF Has("nl") THEN FromRawFar(ev.nl) ELSE FromRaw(ev.dst, ev.c, ev.n, ev.limbs))
+    /\ Match(out')
 TSerde == IsOp("serde") /\ SerdeRT(ev.dst, ev.r) /\ Match([v |-> out', eq |-> TRUE, hasheq |-> TRUE])
 
 TPush == IsOp("push") /\ Push(ev.dst, ev.x) /\ Match(out')
@@ -80,6 +83,7 @@ TBitOp == IsOp("bitop") /\ BitOp(ev.dst, ev.x, ev.y, ev.t) /\ Match(out')
 TContains == IsOp("contains") /\ ContainsSl(ev.x.src, ev.y) /\ Match(out')
 
 TStr == IsOp("str") /\ ToText(ev.src) /\ Match(out')
+TFar == IsOp("far") /\ Far(ev.src, ev.how, ev.a, ev.b) /\ Match(out')
 TObs == IsOp("obs") /\ Obs(ev.src, ev.gets, ev.nths) /\ Match(out')
 
 TEq == IsOp("eq") /\ OperandOK(ev.x) /\ OperandOK(ev.y)
@@ -217,7 +221,7 @@ TraceNext ==
     \/ TLit \/ TParse \/ TTrim \/ TFromSyms \/ TNew \/ TClone \/ TToOwned \/ TFromRaw \/ TSerde
     \/ TPush \/ TExtend \/ TClear \/ TTruncate \/ TAppend \/ TPrepend \/ TInsert \/ TRemove
     \/ TInPlace \/ TCopying \/ TBitOp \/ TContains
-    \/ TStr \/ TObs \/ TEq \/ THash \/ TMapGet \/ TCmp \/ TToInt \/ TIntoRaw
+    \/ TStr \/ TFar \/ TObs \/ TEq \/ THash \/ TMapGet \/ TCmp \/ TToInt \/ TIntoRaw
     \/ TKFrom \/ TKParse \/ TKFromInt \/ TKOp \/ TKObs \/ TKSerde \/ TKToSeq \/ TKmers \/ TKMinMax
     \/ TItNew \/ TItNext \/ TItRun \/ TItMix \/ TToIntTake
     \/ TConvert \/ TTextBase
